@@ -248,6 +248,15 @@ theorem steps_reachable {cfg : Cfg β α} {s t : State α} (r : Reachable cfg s)
 theorem exec_reachable (cfg : Cfg β α) {tr : List Ev} {t : State α} (h : exec cfg init tr = some t) : Reachable cfg t :=
   steps_reachable Reachable.init (exec_steps cfg tr h)
 
+/-- the state after a schedule (the initial state if the schedule is not a run) — always reachable -/
+def run (cfg : Cfg β α) (tr : List Ev) : State α := (exec cfg init tr).getD init
+
+theorem run_reachable (cfg : Cfg β α) (tr : List Ev) : Reachable cfg (run cfg tr) := by
+  unfold run
+  cases h : exec cfg init tr with
+  | none => exact Reachable.init
+  | some t => exact exec_reachable cfg h
+
 end Lazy
 
 /-! ## (b), (c) double-checked initialisation and sync.Once -/
@@ -269,6 +278,7 @@ structure Cfg where
   recheck    : Recheck
   storeOnHit : Bool     -- File.lazyInitOnce stores the flag again when the re-check finds L2 set
   order      : Order
+  locks      : Bool     -- the slow path is bracketed by mu.Lock()/mu.Unlock() (broken variant: it is not)
   deriving DecidableEq, Repr
 
 inductive PC where
@@ -309,7 +319,9 @@ inductive Step (cfg : Cfg) : State → State → Prop where
       Step cfg s { s with pc := upd s.pc i .read }
   | fast_miss (s i) : s.pc i = .fast → s.flag = false →
       Step cfg s { s with pc := upd s.pc i .lock }
-  | lock (s i) : s.pc i = .lock → s.mutex = none →
+  | lock (s i) : s.pc i = .lock → cfg.locks = true → s.mutex = none →
+      Step cfg s { s with mutex := some i, pc := upd s.pc i .recheck }
+  | nolock (s i) : s.pc i = .lock → cfg.locks = false →
       Step cfg s { s with mutex := some i, pc := upd s.pc i .recheck }
   | recheck_hit (s i) : s.pc i = .recheck → initialised cfg s = true →
       Step cfg s { s with pc := upd s.pc i (afterHit cfg) }
@@ -354,7 +366,7 @@ def next (cfg : Cfg) (s : State) : Ev → Option State
   | .fast i hit =>
     if s.pc i = .fast ∧ s.flag = hit then some { s with pc := upd s.pc i (if hit then .read else .lock) } else none
   | .lock i =>
-    if s.pc i = .lock ∧ s.mutex = none then some { s with mutex := some i, pc := upd s.pc i .recheck } else none
+    if s.pc i = .lock ∧ (cfg.locks = false ∨ s.mutex = none) then some { s with mutex := some i, pc := upd s.pc i .recheck } else none
   | .recheck i hit =>
     if s.pc i = .recheck ∧ initialised cfg s = hit then
       (if hit then some { s with pc := upd s.pc i (afterHit cfg) }
@@ -407,7 +419,10 @@ theorem next_sound (cfg : Cfg) {s t : State} {e : Ev} (h : next cfg s e = some t
   | lock i =>
     simp only [next] at h
     split at h
-    · rename_i hc; cases h; exact Step.lock s i hc.1 hc.2
+    · rename_i hc; cases h
+      cases hl : cfg.locks with
+      | true => exact Step.lock s i hc.1 hl (by simpa [hl] using hc.2)
+      | false => exact Step.nolock s i hc.1 hl
     · cases h
   | recheck i hit =>
     simp only [next] at h
@@ -463,6 +478,14 @@ theorem steps_reachable {cfg : Cfg} {s t : State} (r : Reachable cfg s) (h : Ste
 
 theorem exec_reachable (cfg : Cfg) {tr : List Ev} {t : State} (h : exec cfg init tr = some t) : Reachable cfg t :=
   steps_reachable Reachable.init (exec_steps cfg tr h)
+
+def run (cfg : Cfg) (tr : List Ev) : State := (exec cfg init tr).getD init
+
+theorem run_reachable (cfg : Cfg) (tr : List Ev) : Reachable cfg (run cfg tr) := by
+  unfold run
+  cases h : exec cfg init tr with
+  | none => exact Reachable.init
+  | some t => exact exec_reachable cfg h
 
 end Dcl
 
@@ -625,6 +648,14 @@ theorem steps_reachable {cfg : Cfg} {s t : State} (r : Reachable cfg s) (h : Ste
 
 theorem exec_reachable (cfg : Cfg) {tr : List Nat} {t : State} (h : exec cfg init tr = some t) : Reachable cfg t :=
   steps_reachable Reachable.init (exec_steps cfg tr h)
+
+def run (cfg : Cfg) (tr : List Nat) : State := (exec cfg init tr).getD init
+
+theorem run_reachable (cfg : Cfg) (tr : List Nat) : Reachable cfg (run cfg tr) := by
+  unfold run
+  cases h : exec cfg init tr with
+  | none => exact Reachable.init
+  | some t => exact exec_reachable cfg h
 
 end Reg
 
